@@ -301,6 +301,39 @@ def proof_step(prop, tier):
     return info
 
 
+def regenerate_and_prove():
+    """translate obtain_latters / obtain_formers from the current source and re-check the equivalence proofs"""
+    import tempfile
+    import translate
+    out = {"applies": True, "generated": False, "proved": False}
+    os.makedirs(os.path.join(VERIF, "work"), exist_ok=True)
+    work = tempfile.mkdtemp(prefix="gen-", dir=os.path.join(VERIF, "work"))
+    try:
+        try:
+            out["functions"] = translate.generate(REPO, os.path.join(work, "KmerGen.v"))
+            out["generated"] = True
+        except translate.Refuse as e:
+            out["refused"] = str(e)
+            return out
+        except Exception as e:  # noqa  (syntax error in the source etc.)
+            out["refused"] = repr(e)
+            return out
+        with open(os.path.join(COQ, "Generated", "KmerGenProofs.v")) as f:
+            open(os.path.join(work, "KmerGenProofs.v"), "w").write(f.read())
+        log = ""
+        for fn in ("KmerGen.v", "KmerGenProofs.v"):
+            rc, o = _run(["timeout", "300", "coqc", "-Q", COQ, "DSW", "-Q", work, "DSWGen", os.path.join(work, fn)], 400, work)
+            log += o
+            if rc != 0:
+                out["log"] = log
+                return out
+        out["proved"] = log.count("Closed under the global context") == 2
+        out["log"] = log[-300:]
+        return out
+    finally:
+        subprocess.call(["rm", "-rf", work])
+
+
 # --------------------------------------------------------------------------------- findings
 def load_known():
     p = os.path.join(VERIF, "KNOWN_FINDINGS.json")
@@ -322,6 +355,22 @@ def run_property(prop, tier, seed, replay=None):
     import roots as roots_mod
     tie_roots = roots_mod.ROOTS.get(prop.ID, [])
     tie = sourcetie.check(REPO, tie_roots) if (tie_roots and replay is None) else []
+    # ---- functions whose model is REGENERATED from the current source (harness/translate.py): when the regenerated definitions
+    #      are proved equal to the hand-written model, a fingerprint difference of those functions is a harmless rewrite
+    regen = {"applies": False}
+    if tie_roots and replay is None:
+        import translate
+        funcs_now, _ = sourcetie.scan(REPO)
+        cone_now = sourcetie.closure(tie_roots, funcs_now)
+        if any(f in cone_now for f in translate.FUNCS):
+            regen = regenerate_and_prove()
+            if regen.get("proved"):
+                tie = [d for d in tie if not any(("source of %s " % f) in d for f in translate.FUNCS)]
+            elif regen.get("generated"):
+                proof["ok"] = False
+                proof.setdefault("messages", []).append(
+                    "the model regenerated from the current source of obtain_latters / obtain_formers is no longer proved equal to "
+                    "Kmer.obtain_latters / Kmer.obtain_formers (coq/Generated/KmerGenProofs.v): " + regen.get("log", "")[-400:])
     # ---- cases: corpus first, then generated
     cases = []
     if replay is not None:
@@ -468,6 +517,7 @@ def run_property(prop, tier, seed, replay=None):
                                    list(getattr(prop, "MODEL_FUNCTIONS", [])), "model_error": model_error},
             "oracle": {"evaluations": oracle_evals, "failures": len(failures), "new_failures": len(new_failures),
                        "searched_after_break": searched},
+            "regenerated_model": {k: v for k, v in regen.items() if k != "log"},
             "source_tie": {"roots": tie_roots, "differences": tie,
                            "rule": "SHA-256 of the docstring-free AST of every dsw function reachable from the roots, and of the "
                                    "module-level code of their files, compared with harness/fingerprints.json"},
